@@ -4,6 +4,7 @@ import (
 	"go/ast"
 	"go/token"
 	"go/types"
+	"strings"
 )
 
 // R-LAZY-INDEX: bookkeeping of the lazy field index in unmarshalPointerLazy.
@@ -19,7 +20,7 @@ import (
 // num == lastNum.
 func (c *Ctx) ruleLazyIndex(rule string) {
 	R, P := c.R, c.P
-	R.Rule(rule, "lazy index bookkeeping: `end := start-len(b)`, `pos = end` and `lastNum = num` are direct statements of the tag-loop body (executed for every field), in that order after the advance `b = b[n:]`; IndexEntry is {FieldNum: num, Start: pos, End: end}; the extend branch is the else of `num != lastNum`", 6)
+	R.Rule(rule, "lazy index bookkeeping: `end := start-len(b)`, `pos = end` and `lastNum = num` are direct statements of the tag-loop body (executed for every field), in that order after the advance `b = b[n:]`; IndexEntry is {FieldNum: num, Start: pos, End: end}; the extend branch is the else of a condition that holds whenever `num != lastNum`", 6)
 	fi := c.need(rule, "internal/impl.(*MessageInfo).unmarshalPointerLazy")
 	if fi == nil {
 		return
@@ -134,9 +135,21 @@ func (c *Ctx) ruleLazyIndex(rule string) {
 			if !ok {
 				return true
 			}
-			be, ok := unparen(is.Cond).(*ast.BinaryExpr)
+			cond := unparen(is.Cond)
+			// `num != lastNum || <more reasons for a new entry>`: extension still requires num == lastNum
+			for {
+				or, ok := cond.(*ast.BinaryExpr)
+				if !ok || or.Op != token.LOR {
+					break
+				}
+				cond = unparen(or.X)
+			}
+			be, ok := cond.(*ast.BinaryExpr)
 			if !ok || (be.Op != token.NEQ && be.Op != token.EQL) {
 				return true
+			}
+			if be.Op == token.EQL && cond != unparen(is.Cond) {
+				return true // `num == lastNum || …` would extend across different numbers
 			}
 			a, b := objOf(info, be.X), objOf(info, be.Y)
 			if !((a == numO && b == lastNumO) || (a == lastNumO && b == numO)) {
@@ -171,7 +184,101 @@ func (c *Ctx) ruleLazyIndex(rule string) {
 			}
 			return true
 		})
-		R.Check(okBranch, rule, fi.Key+" new/extend", P.Pos(loop), "new entry when num != lastNum, extend End otherwise",
+		R.Check(okBranch, rule, fi.Key+" new/extend", P.Pos(loop), "new entry whenever num != lastNum (possibly for further reasons), extend End only when num == lastNum",
 			"the choice between a new index entry and extending the previous one is not `num != lastNum`")
+	}
+}
+
+// R-LAZY-INDEX-EXCLUSIVE: a record of a lazy field is either left in the
+// retained buffer and covered by the lazy index (to be re-emitted from the
+// buffer or decoded on first access), or it is an unknown record appended to
+// the unknown-field bytes — never both. A record in both places is written
+// twice by the non-deterministic Marshal (once from the buffer range, once
+// from the unknown bytes).
+func (c *Ctx) ruleLazyIndexExclusive(rule string) {
+	R, P := c.R, c.P
+	R.Rule(rule, "in unmarshalPointerLazy the lazy index is created/extended for a record only under a condition that excludes the record having been appended to the unknown-field bytes (a test of the record's error state or of discardUnknown)", 1)
+	fi := c.need(rule, "internal/impl.(*MessageInfo).unmarshalPointerLazy")
+	if fi == nil {
+		return
+	}
+	info := fi.Info()
+	pm := parentMap(fi.Decl.Body)
+	defs := localDefs(fi.Decl.Body, info)
+	// the unknown store: *u = append(*u, b[:n]...) — learn the variables its guard mentions
+	guardVars := map[types.Object]bool{}
+	walk(fi.Decl.Body, func(n ast.Node) bool {
+		is, ok := n.(*ast.IfStmt)
+		if !ok || containsCall(info, is.Body, "internal/impl.(*MessageInfo).mutableUnknownBytes") == nil {
+			return true
+		}
+		walk(is.Cond, func(x ast.Node) bool {
+			if id, ok := x.(*ast.Ident); ok {
+				if v, ok := info.Uses[id].(*types.Var); ok && !v.IsField() && v.Pkg() != nil && v.Parent() != v.Pkg().Scope() {
+					if b, ok := v.Type().Underlying().(*types.Basic); ok && b.Kind() == types.Bool {
+						guardVars[v] = true
+					}
+				}
+			}
+			return true
+		})
+		return true
+	})
+	// err of the record
+	var errObj types.Object
+	walk(fi.Decl.Body, func(n ast.Node) bool {
+		if as, ok := n.(*ast.AssignStmt); ok && as.Tok == token.DEFINE && len(as.Lhs) == 1 && len(as.Rhs) == 1 {
+			if id, ok := unparen(as.Rhs[0]).(*ast.Ident); ok && id.Name == "errUnknown" {
+				errObj = info.Defs[as.Lhs[0].(*ast.Ident)]
+			}
+		}
+		return true
+	})
+	n := 0
+	walk(fi.Decl.Body, func(x ast.Node) bool {
+		as, ok := x.(*ast.AssignStmt)
+		if !ok || len(as.Lhs) != 1 {
+			return true
+		}
+		l := exprStr(as.Lhs[0])
+		if !(l == "lazyIndex" || strings.HasPrefix(l, "lazyIndex[")) {
+			return true
+		}
+		if as.Tok == token.DEFINE {
+			return true
+		}
+		n++
+		// control dependence: some enclosing if (then or else branch) tests the record's error state / discardUnknown
+		good := false
+		var cur ast.Node = as
+		for p := pm[cur]; p != nil; cur, p = p, pm[p] {
+			is, ok := p.(*ast.IfStmt)
+			if !ok || (cur != ast.Node(is.Body) && cur != is.Else) {
+				continue
+			}
+			var mentions func(e ast.Node, depth int)
+			mentions = func(e ast.Node, depth int) {
+				walk(e, func(y ast.Node) bool {
+					if id, ok := y.(*ast.Ident); ok {
+						o := info.Uses[id]
+						if o != nil && (o == errObj || guardVars[o]) {
+							good = true
+						} else if o != nil && depth < 2 {
+							// a boolean local computed from those variables
+							for _, d := range defs[o] {
+								mentions(d.rhs, depth+1)
+							}
+						}
+					}
+					return true
+				})
+			}
+			mentions(is.Cond, 0)
+		}
+		R.Check(good, rule, fi.Key+" index update#"+itoa(n), P.Pos(as), "index update excluded for records stored as unknown", "the lazy index is created/extended for every record of a lazy field, including one that was just appended to the unknown-field bytes (a wrong-wire-type occurrence): the record then sits in the indexed buffer range and in the unknown bytes, and the non-deterministic Marshal writes it twice")
+		return true
+	})
+	if n == 0 {
+		R.Unk(rule, fi.Key, P.Pos(fi.Decl), "no lazy index update found")
 	}
 }
